@@ -8,7 +8,7 @@ RULE = ("op mn.parse <phrase> (returns printed form, length, Display) on: word c
         "(quick: each word once at a random position of a valid phrase; thorough: each word at each of 24 positions); all 2048 candidates "
         "for the final word of a random prefix for each count 12..24 (quick: counts 12 and 24 in full, 128 candidates for the others); random entropies of "
         "the five sizes via mn.random with injected entropy (parse∘print round trip); whitespace layouts; malformed stream. "
-        "a random sample of the cases is re-run through every sub-command that reaches the same code (vlib/routes.py); single-separator layouts for every white-space character; valid phrases followed by further list words / a second phrase / junk; wide layouts (runs of up to 50 white-space characters, column layout, valid phrases padded to exact byte lengths 200..1000003 around 216 / 2^k / 10^k); near-miss tokens (valid phrases with one word replaced by an upper-case / full-width / ligature / roman-numeral / superscript / mathematical-alphabet / abbreviated / invisibly-padded look-alike of the same word); non-trivial = distinct phrase that reaches the checksum comparison (12..24 known words); judge = executable Spec.Bip39.Valid")
+        "a random sample of the cases is re-run through every sub-command that reaches the same code (vlib/routes.py); single-separator layouts for every white-space character; the right final word replaced by a list word that is a suffix / prefix / substring of it (or contains it) with the same entropy bits; valid phrases followed by further list words / a second phrase / junk; wide layouts (runs of up to 50 white-space characters, column layout, valid phrases padded to exact byte lengths 200..1000003 around 216 / 2^k / 10^k); near-miss tokens (valid phrases with one word replaced by an upper-case / full-width / ligature / roman-numeral / superscript / mathematical-alphabet / abbreviated / invisibly-padded look-alike of the same word); non-trivial = distinct phrase that reaches the checksum comparison (12..24 known words); judge = executable Spec.Bip39.Valid")
 EXHAUSTIVE_SWEEPS = {
     "quick": ["word counts 0..40", "all 2048 words (once each)", "all 2048 final-word candidates for 12- and 24-word prefixes"],
     "thorough": ["word counts 0..40", "all 2048 words x 24 positions", "all 2048 final-word candidates for every count 12..24"]}
@@ -97,6 +97,35 @@ def gen(rng, tier):
         add("".join(w + rng.choice(WS[:6]) for w in ws[:-1]) + ws[-1], "layout", "single-separator", "mixed")
         k = rng.randrange(1, len(ws))
         add(" ".join(ws[:k]) + "\n" + " ".join(ws[k:]), "layout", "single-separator", "one-line-break")
+    # lexical relatives at the final position: the right last word replaced by a list word that is a suffix / prefix /
+    # substring of it (or the other way round) AND carries the same entropy bits, so that only the checksum differs
+    # (act|abstract, air|affair, art|apart, arm|alarm, under|thunder, rice|price, ...); entropy found by search
+    import hashlib
+    idx = {w: i for i, w in enumerate(W)}
+    rel = [(a, b) for a in W for b in W if a != b and len(a) < len(b) and a in b]
+    for n in (12, 15, 18, 21, 24):
+        cs = n // 3
+        nb = n * 4 // 3
+        pairs = [(a, b) for a, b in rel if idx[a] >> cs == idx[b] >> cs]
+        rng.shuffle(pairs)
+        # every suffix pair and every prefix pair (a few dozen per length), a sample of the inner-substring ones
+        edge = [(a, b) for a, b in pairs if b.endswith(a) or b.startswith(a)]
+        inner = [(a, b) for a, b in pairs if not (b.endswith(a) or b.startswith(a))]
+        for a, b in edge + inner[:(12 if tier == "thorough" else 4)]:
+            for right, wrong in ((b, a), (a, b)):
+                # entropy whose last (11 - cs) bits are those of `right` and whose checksum selects `right`
+                tail_bits = 11 - cs
+                for _ in range(4000):
+                    e = bytearray(bip39.rand_entropy(rng, nb))
+                    v = int.from_bytes(e, "big")
+                    v = (v >> tail_bits << tail_bits) | (idx[right] >> cs)
+                    e = v.to_bytes(nb, "big")
+                    if hashlib.sha256(e).digest()[0] >> (8 - cs) == idx[right] & ((1 << cs) - 1):
+                        ws = bip39.from_entropy(e)
+                        assert ws[-1] == right
+                        add(" ".join(ws), "final-word-relative", "valid")
+                        add(" ".join(ws[:-1] + [wrong]), "final-word-relative", "suffix" if right.endswith(wrong) or wrong.endswith(right) else "prefix" if right.startswith(wrong) or wrong.startswith(right) else "substring")
+                        break
     # a valid phrase followed by more tokens: further list words (1..24 of them, or a second valid phrase) or junk — the
     # word count is that of the whole input, and every token is looked up
     for n in (12, 15, 18, 21, 24):
